@@ -5,7 +5,8 @@ from . import core, conn, hist, hs
 RULE = ("random histories (length up to 60 in the thorough tier) over {DialV2 ok / failing address, close of a dialled connection "
         "(succeeding / failing), session open ok / wrong password / no supported suite (with and without discovery), in-session and "
         "session-less commands with retry scripts over the full outcome alphabet incl. non-normal codes with truncated bodies, "
-        "Close Session ok / failing}; after every step the deltas of all bmc_* metrics (prometheus DefaultGatherer) are compared with "
+        "Close Session ok / failing}, and histories with a real 50 ms back-off in which a context without deadline is cancelled "
+        "during a pause or a deadline falls into one; after every step the deltas of all bmc_* metrics (prometheus DefaultGatherer) are compared with "
         "the conservation laws: attempts[name] = calls; failures[name] = calls that returned an error; retries = transmissions - 1; "
         "responses[code] = valid responses received (the Coq model's list of counted codes for the delivered bytes); command duration "
         "observations = calls; session/connection open attempts and failures; gauges = opens - closes.  distinct by history")
@@ -102,6 +103,23 @@ def run(ch, build):
         n = rng.choice([8, 15, 25]) if ch.quick() else rng.randrange(10, 61)
         su, steps = gen_history(ch, n)
         scns.append({"bmc": conn.default_bmc(seed=1000 + h, suites=[[100, su[0], su[1], su[2]]]), "timeout_ms": 40, "steps": steps})
+    # histories with a real back-off pause (50 ms) in which the caller gives up: a context WITHOUT deadline is cancelled
+    # during the first / second pause, or a deadline falls into a pause; retries must count transmissions, not plans
+    for h in range(4 if ch.quick() else 30):
+        su = rng.choice(hist.SUITES)
+        pool = [c for c in hist.command_pool(rng, False) if c["name"] in conn.SESSIONLESS_OK]
+        steps = []
+        for _ in range(3):
+            steps.append({"op": "cmd", "conn": "sessionless", "cmd": rng.choice(pool), "script": ["busy"] * 6, "cancel_ms": rng.choice([20, 30])})
+            steps.append({"op": "cmd", "conn": "sessionless", "cmd": rng.choice(pool), "script": ["busy", "c3", "ok"]})
+            steps.append({"op": "cmd", "conn": "sessionless", "cmd": rng.choice(pool), "script": ["c3"] * 6, "cancel_ms": rng.choice([70, 80])})
+            steps.append({"op": "cmd", "conn": "sessionless", "cmd": rng.choice(pool), "script": ["busy"] * 6, "ctx_ms": rng.choice([25, 75, 125])})
+        steps.append(hs.open_step(suites=[su]))
+        spool = hist.command_pool(rng, True)
+        steps.append({"op": "cmd", "conn": "session", "cmd": rng.choice(spool), "script": ["busy"] * 6, "cancel_ms": 25})
+        steps.append({"op": "cmd", "conn": "session", "cmd": rng.choice(spool), "script": ["busy", "ok"]})
+        steps.append({"op": "cmd", "conn": "session", "cmd": rng.choice(spool), "script": ["c3"] * 6, "cancel_ms": 75})
+        scns.append({"bmc": conn.default_bmc(seed=5000 + h, suites=[[100, su[0], su[1], su[2]]]), "timeout_ms": 40, "backoff_ms": 50, "steps": steps})
     outs = conn.run_scenarios(scns)
 
     got = {}
